@@ -127,7 +127,7 @@ func buildNode(obj slip.Object, p *slip.Printer) (node Node) {
 		}
 		node = arrayFromList(prefix, to.AsList(), p)
 	case slip.Funky:
-		node = buildCall(slip.Symbol(to.GetName()), to.GetArgs(), p)
+		node = buildCall(slip.Symbol(slip.FuncPrintName(to)), to.GetArgs(), p)
 	case slip.Symbol:
 		node = &Leaf{text: to.Readably(nil, p)}
 	case slip.LoadFormer:
